@@ -236,6 +236,22 @@ class AppMutator(BaseMutator):
         ChangeFields), and then looks in each batch for any changes to fields
         that become unnecessary (due to field deletion).
         """
+        # The optimization steps below rewrite mutations in place (renaming
+        # fields and models, merging attributes). The mutations passed in are
+        # usually the evolution definitions themselves (the MUTATIONS lists
+        # of evolution modules), which get processed more than once, so work
+        # on copies.
+        orig_mutations = mutations
+        mutations = []
+
+        for mutation in orig_mutations:
+            mutation = copy.copy(mutation)
+
+            if isinstance(getattr(mutation, 'field_attrs', None), dict):
+                mutation.field_attrs = mutation.field_attrs.copy()
+
+            mutations.append(mutation)
+
         mutation_batches = self._create_mutation_batches(mutations)
 
         # Go through all the mutation batches and get our resulting set of
@@ -251,7 +267,7 @@ class AppMutator(BaseMutator):
                 'Unable to pre-process mutations for optimization. '
                 '%s contains a mutation that cannot be smimulated.',
                 self.app_label)
-            result_mutations = mutations
+            result_mutations = orig_mutations
 
         return result_mutations
 
